@@ -250,7 +250,7 @@ func genC17(g *Gen) {
 	}
 	r := g.Rand()
 	// random histories (length 2 on the classes, 3..6 everywhere); endpoints also from the neighbours of the boundary set
-	n := g.Pick(1500, 60000)
+	n := g.Pick(1500, 200000)
 	probes := c17probes()
 	for i := 0; i < n; i++ {
 		tg := targets[r.Intn(len(targets))]
